@@ -97,7 +97,7 @@ def run(ctx):
         cfg = "%s/musig.cfg" % ctx.tmp
         with open(cfg, "w") as f:
             f.write("INIT Init\nNEXT Next\nCONSTANTS\n  PP = 7\n  AA = 0\n  BB = 3\n  NN = 13\n  GX = 1\n  GY = 2\n")
-        r = ctx.mc("musig/MC_MuSig.tla", cfg, workers=1, timeout=3000)
+        r = ctx.mc("musig/MC_MuSig.tla", cfg, workers=1, timeout=7200)
         ok = '<<"AllOK", TRUE>>' in r.out and '<<"Coverage", TRUE>>' in r.out
         if not ok:
             ctx.violation("spec:MuSigToy", "the aggregation algebra of MuSigToy.tla does not always yield a valid signature or misses a parity branch:\n" + r.out[-1500:], {"kind": "tlc", "spec": "musig/MC_MuSig.tla"})
@@ -198,7 +198,7 @@ def run(ctx):
         c.setdefault("hr", [])
     byid = {c["id"]: c for c in cases}
     ctx.sample({k: v for k, v in cases[1].items() if k in ("id", "kind", "honest", "res", "mut", "n")})
-    bad = ctx.validate("musig/C13Cases.tla", [{k: v for k, v in c.items() if k not in ("mut", "n")} if c["kind"] == "musig" else c for c in cases], "C13Cases.cfg", timeout=3000, per_shard_min=3)
+    bad = ctx.validate("musig/C13Cases.tla", [{k: v for k, v in c.items() if k not in ("mut", "n")} if c["kind"] == "musig" else c for c in cases], "C13Cases.cfg", timeout=7200, per_shard_min=3)
     for cid, why in bad.items():
         c = byid[cid]
         ctx.violation("%s:%s:%s" % (c["kind"], why, c.get("mut", "")), "%s case %s: %s" % (c["kind"], cid, why), {"kind": "case", "case": {k: v for k, v in c.items() if k != "hr"}})
